@@ -16,6 +16,22 @@ import (
 
 const absMark = uint64(1)
 
+// farMark: a concrete instant outside the range of UnixNano (built by
+// time.Date with concrete arguments, e.g. year 10000); ext = Unix seconds.
+// Only the text forms (MarshalJSON, Format) and UnixNano are defined on it.
+const farMark = uint64(2)
+
+func farTime(v value) (time.Time, bool) {
+	s, ok := v.(structure)
+	if !ok {
+		return time.Time{}, false
+	}
+	if w, ok := s[0].(uint64); ok && w == farMark {
+		return time.Unix(s[1].(int64), 0).UTC(), true
+	}
+	return time.Time{}, false
+}
+
 func absTime(ns value) value {
 	return structure{absMark, ns, (*value)(nil)}
 }
@@ -66,7 +82,28 @@ func registerTimeStubs() {
 		}
 		return absTime(i.arith(token.ADD, i.arith(token.MUL, sec, int64(1e9)), nsec))
 	})
+	externals["time.Date"] = ext1(func(fr *frame, a []value) value {
+		var n [7]int
+		for k := 0; k < 7; k++ {
+			c, ok := a[k].(int)
+			if !ok {
+				unsupported("time.Date with symbolic arguments")
+			}
+			n[k] = c
+		}
+		t := time.Date(n[0], time.Month(n[1]), n[2], n[3], n[4], n[5], n[6], time.UTC)
+		if t.Year() >= 1970 && t.Year() < 2200 {
+			return absTime(t.UnixNano())
+		}
+		if n[6] != 0 {
+			unsupported("time.Date outside 1970..2200 with nanoseconds")
+		}
+		return structure{farMark, t.Unix(), (*value)(nil)}
+	})
 	externals["(time.Time).UnixNano"] = ext1(func(fr *frame, a []value) value {
+		if t, ok := farTime(a[0]); ok {
+			return t.UnixNano()
+		}
 		z, ns := timeParts(a[0])
 		if z {
 			return int64(-6795364578871345152)
@@ -120,6 +157,13 @@ func registerTimeStubs() {
 	// JSON text form: computed natively for concrete instants (RFC 3339 in
 	// the process's local zone, exactly as the native replay does)
 	externals["(time.Time).MarshalJSON"] = ext1(func(fr *frame, a []value) value {
+		if t, ok := farTime(a[0]); ok {
+			b, err := t.MarshalJSON()
+			if err != nil {
+				return tuple{[]value(nil), fr.i.errorOf(err.Error())}
+			}
+			return tuple{strBytes(string(b)), iface{}}
+		}
 		z, ns := timeParts(a[0])
 		var t time.Time
 		if !z {
@@ -138,6 +182,9 @@ func registerTimeStubs() {
 	// Format / AppendFormat: natively for concrete instants and layouts (same
 	// zone convention as MarshalJSON)
 	nativeTime := func(v value, what string) time.Time {
+		if t, ok := farTime(v); ok {
+			return t
+		}
 		z, ns := timeParts(v)
 		if z {
 			return time.Time{}
